@@ -19,6 +19,7 @@
 #include "bitserializer/types/std/map.h"
 #include "bitserializer/types/std/pair.h"
 #include "bitserializer/types/std/chrono.h"
+#include "bitserializer/types/std/optional.h"
 #include <sstream>
 #include <thread>
 #ifdef C19_EXPLORE
@@ -101,10 +102,58 @@ static std::string opWideStrings(int salt) {
 	Wide r1, r2; BS::LoadObject<JS>(r1, js); BS::LoadObject<MP>(r2, mp);
 	return js + "#" + bsx::hex(mp) + "#" + BS::Convert::To<std::string>(r1.a) + BS::Convert::To<std::string>(r1.b) + BS::Convert::To<std::string>(r1.c) + "#" + BS::Convert::To<std::string>(r2.a) + BS::Convert::To<std::string>(r2.b) + BS::Convert::To<std::string>(r2.c);
 }
+// every conversion family through wide (16/32-bit, wchar_t) strings: these take transcoding detours of their own
+static std::string opConvertWide(int salt) {
+	using namespace std::chrono; namespace C = BS::Convert;
+	std::string s;
+	std::u16string n16 = C::To<std::u16string>(1234567 + salt); std::u32string n32 = C::To<std::u32string>(-98765 - salt); std::wstring nw = C::To<std::wstring>(2.5 * salt);
+	s += std::to_string(C::To<int>(n16)) + "," + std::to_string(C::To<long long>(n32)) + "," + std::to_string(C::To<double>(nw)) + ",";
+	s += std::to_string(C::To<bool>(std::u16string(u"true"))) + C::To<std::string>(C::To<std::wstring>(static_cast<Color>(salt % 3))) + std::to_string(static_cast<int>(C::To<Color>(std::u32string(U"Green")))) + ",";
+	auto tp = time_point<system_clock, milliseconds>(milliseconds(1600000000456ll + salt * 1000));
+	std::u16string iso16 = C::To<std::u16string>(tp); std::wstring isow = C::To<std::wstring>(tp + hours(salt)); std::u32string iso32 = C::To<std::u32string>(tp - hours(salt));
+	s += std::to_string(C::To<time_point<system_clock, milliseconds>>(iso16).time_since_epoch().count()) + "," + std::to_string(C::To<time_point<system_clock, seconds>>(isow).time_since_epoch().count()) + ","
+		+ std::to_string(C::To<time_point<system_clock, milliseconds>>(iso32).time_since_epoch().count()) + ",";
+	std::u16string d16 = C::To<std::u16string>(seconds(86400 + 61 * salt)); std::wstring dw = C::To<std::wstring>(milliseconds(-1500 - salt));
+	s += std::to_string(C::To<seconds>(d16).count()) + "," + std::to_string(C::To<milliseconds>(dw).count()) + ",";
+	s += C::To<std::string>(iso16) + C::To<std::string>(isow) + C::To<std::string>(iso32) + C::To<std::string>(d16) + C::To<std::string>(dw);
+	try { (void)C::To<int>(std::u16string(u"12x") ); s += "no exception"; } catch (const std::exception& e) { s += std::string("|") + e.what(); }
+	try { (void)C::To<time_point<system_clock, seconds>>(std::wstring(L"2023-13-01T00:00:00Z")); s += "no exception"; } catch (const std::exception& e) { s += std::string("|") + e.what(); }
+	return s;
+}
+// chrono, binary and nested members through every archive (MsgPack: binary timestamps and bin; text archives: ISO text)
+struct Timed { std::chrono::time_point<std::chrono::system_clock, std::chrono::milliseconds> at{}; std::chrono::seconds took{}; std::vector<uint8_t> blob; std::map<std::string, double> m; std::optional<int> opt; bool flag = false;
+	template <class A> void Serialize(A& ar) { ar << BS::KeyValue("at", at) << BS::KeyValue("took", took) << BS::KeyValue("blob", blob) << BS::KeyValue("m", m) << BS::KeyValue("opt", opt) << BS::KeyValue("flag", flag); } };
+struct TimedRow { std::chrono::time_point<std::chrono::system_clock, std::chrono::seconds> at{}; std::chrono::minutes took{}; bool flag = false; float f = 0;
+	template <class A> void Serialize(A& ar) { ar << BS::KeyValue("at", at) << BS::KeyValue("took", took) << BS::KeyValue("flag", flag) << BS::KeyValue("f", f); } };
+static std::string fmtTimed(const Timed& t) { std::string s = std::to_string(t.at.time_since_epoch().count()) + "|" + std::to_string(t.took.count()) + "|"; for (auto b : t.blob) s += std::to_string(b) + "."; for (auto& kv : t.m) s += kv.first + "=" + std::to_string(kv.second); return s + "|" + (t.opt ? std::to_string(*t.opt) : "null") + "|" + std::to_string(t.flag); }
+static std::string opChronoArchives(int salt) {
+	using namespace std::chrono;
+	Timed t; t.at = time_point<system_clock, milliseconds>(milliseconds(1650000000789ll + salt)); t.took = seconds(3600 * salt + 59); t.blob = {1, 2, static_cast<uint8_t>(200 + salt)}; t.m = {{"pi", 3.25}, {"k" + std::to_string(salt), -0.5 * salt}}; if (salt & 1) t.opt = salt; t.flag = true;
+	std::string mp = BS::SaveObject<MP>(t), js = BS::SaveObject<JS>(t), xm = BS::SaveObject<XM>(t);
+	Timed r1, r2, r3; BS::LoadObject<MP>(r1, mp); BS::LoadObject<JS>(r2, js); BS::LoadObject<XM>(r3, xm);
+	std::vector<TimedRow> rows(2); rows[0].at = time_point<system_clock, seconds>(seconds(1000000000 + salt)); rows[0].took = minutes(salt); rows[1].at = time_point<system_clock, seconds>(seconds(-86400 * salt)); rows[1].flag = true; rows[1].f = 0.5f * salt;
+	std::string cs = BS::SaveObject<CS>(rows); std::vector<TimedRow> rr; BS::LoadObject<CS>(rr, cs);
+	std::string s = bsx::hex(mp) + "#" + js + "#" + xm + "#" + cs + "#" + fmtTimed(r1) + "#" + fmtTimed(r2) + "#" + fmtTimed(r3) + "#";
+	for (auto& r : rr) s += std::to_string(r.at.time_since_epoch().count()) + "|" + std::to_string(r.took.count()) + "|" + std::to_string(r.flag) + "|" + std::to_string(r.f) + ";";
+	return s;
+}
+// text archives through encoded streams (BOM, UTF-16/32 transcoding on write and BOM detection on read) and formatted output
+static std::string opEncodedStreams(int salt) {
+	Item i; i.id = salt; i.name = "\xD0\x9F\xE2\x82\xAC\xF0\x9F\x98\x80 " + std::to_string(salt); i.color = Color::Blue; i.w = 0.75 * salt;
+	std::string s;
+	{ BS::SerializationOptions o; o.streamOptions.encoding = BS::Convert::Utf::UtfType::Utf16le; o.streamOptions.writeBom = true; o.formatOptions.enableFormat = true;
+	  std::ostringstream os; BS::SaveObject<JS>(i, os, o); std::istringstream is(os.str()); Item r; BS::LoadObject<JS>(r, is); s += bsx::hex(os.str()) + "#" + fmtItem(r) + "#"; }
+	{ BS::SerializationOptions o; o.streamOptions.encoding = BS::Convert::Utf::UtfType::Utf32be; o.streamOptions.writeBom = true;
+	  std::vector<Item> v(2); v[0] = i; v[1].id = salt + 5; v[1].name = "q\"uote";
+	  std::ostringstream os; BS::SaveObject<CS>(v, os, o); std::istringstream is(os.str()); std::vector<Item> r; BS::LoadObject<CS>(r, is); s += bsx::hex(os.str()) + "#"; for (auto& x : r) s += fmtItem(x) + ";"; }
+	{ BS::SerializationOptions o; o.streamOptions.writeBom = false; o.formatOptions.enableFormat = true; o.formatOptions.paddingChar = '\t'; o.formatOptions.paddingCharNum = 1;
+	  std::ostringstream os; BS::SaveObject<XM>(i, os, o); std::istringstream is(os.str()); Item r; BS::LoadObject<XM>(r, is); s += os.str() + "#" + fmtItem(r); }
+	return s;
+}
 using Op = std::string (*)(int);
-static const Op kOps[] = {opPairMultimapJson, opPairMsgPack, opEnum, opJsonMem, opXmlStream, opCsvMem, opMsgPackStream, opConvert, opValidationFail, opSharedConst, opWideStrings};
-static const char* kOpName[] = {"pair_multimap_json", "pair_msgpack", "enum", "json_mem", "xml_stream", "csv_mem", "msgpack_stream", "convert", "validation_fail", "shared_const", "wide_strings"};
-constexpr int NOPS = 11;
+static const Op kOps[] = {opPairMultimapJson, opPairMsgPack, opEnum, opJsonMem, opXmlStream, opCsvMem, opMsgPackStream, opConvert, opValidationFail, opSharedConst, opWideStrings, opConvertWide, opChronoArchives, opEncodedStreams};
+static const char* kOpName[] = {"pair_multimap_json", "pair_msgpack", "enum", "json_mem", "xml_stream", "csv_mem", "msgpack_stream", "convert", "validation_fail", "shared_const", "wide_strings", "convert_wide", "chrono_archives", "encoded_streams"};
+constexpr int NOPS = 14;
 
 struct ThreadArg { int op; int salt; std::string result; };
 static void threadBody(void* p) { auto* a = static_cast<ThreadArg*>(p); try { a->result = kOps[a->op](a->salt); } catch (const std::exception& e) { a->result = std::string("EXCEPTION ") + e.what(); } }
